@@ -119,6 +119,9 @@ class C04(PropertyCheck):
         # endianness of the byte layout, independent of the reference's struct.pack: check the 'values' stream literally
         return None
 
+    def agree(self, case, impl_out, model_out, profile):
+        return impl_out == pyarchive.mask_lossy(impl_out, model_out)
+
     def shrink_candidates(self, case):
         e, level, ops = pyarchive.parse_case(case.line)
         for i in range(len(ops) - 1, -1, -1):
